@@ -137,6 +137,12 @@ def guard_values(guards, subscript):
                 c = ast.literal_eval(t.comparators[0])
             except Exception:
                 continue
+            if isinstance(t.ops[0], ast.In) and isinstance(c, str) and \
+                    ast.unparse(t.left) == lefts[1]:
+                # `name[k:k+1] in 'xu'` is a substring test: it also holds
+                # for the empty slice, so it establishes nothing about
+                # the length of `name`
+                continue
             if isinstance(t.ops[0], ast.In) and isinstance(
                     c, (tuple, list, set, str)):
                 vals = list(c)
